@@ -7,7 +7,7 @@
     of merged (master, slave) pairs and every list of operations, in every insertion order. *)
 From Coq Require Import List Bool Arith ZArith Lia Permutation.
 From CB Require Import Base.Hex Model.C05_VertexList Proofs.C05_Classify Proofs.C05_VertexList.
-From CB Require Import Gen.C05.Tables.
+From CB Require Import Gen.C05.Tables Gen.C05.Source Proofs.C05_SourceEq.
 Import ListNotations.
 Open Scope nat_scope.
 
@@ -249,6 +249,26 @@ Qed.
 Example C05_hypothesis_satisfiable : forall pts, near_equiv_on zpoint (near_z 0) pts.
 Proof. exact near_z_0_equiv. Qed.
 
+(** ** source tie: the hand model of [VertexList] is the translated source (Gen/C05/Source.v, regenerated from
+    lists/vertex_list.py on every run by harness/props/C05_translate.py), for ALL arguments: the translated
+    [find_duplicated] (result and the caller's list it sorts in place), [find_unique], [DuplicatedEntry] (on a sorted list), [add] with a
+    list of slave patches, any sequence of [add] calls ([run], what [_add_vertices] does per operation) and the model's
+    [assemble_from] rebuilt on the translated [add].  No hypotheses. *)
+Definition C05_source_is_model_stmt : Prop :=
+  (forall ds p k, src_find_duplicated ds p k = (find_duplicated zpoint (near_z tol2) ds p (sort k), sort k))
+  /\ (forall vs p, src_find_unique vs p = find (fun v => near_z tol2 p (vpos v)) vs)
+  /\ (forall v k, src_DuplicatedEntry v (sort k) = mkD v (sort k))
+  /\ (forall l p k, src_add l p k = add zpoint (near_z tol2) l p k)
+  /\ (forall reqs l, src_run l reqs = run zpoint (near_z tol2) l reqs)
+  /\ (forall slaves dflt ops l,
+        src_assemble_from slaves dflt l ops = assemble_from zpoint (near_z tol2) slaves dflt l ops).
+
+Theorem C05_source_is_model : C05_source_is_model_stmt.
+Proof.
+  exact (conj src_find_duplicated_eq (conj src_find_unique_eq (conj src_DuplicatedEntry_eq
+          (conj src_add_eq (conj src_run_is_model src_assemble_is_model))))).
+Qed.
+
 Print Assumptions C05_dense.
 Print Assumptions C05_position.
 Print Assumptions C05_identity.
@@ -261,3 +281,4 @@ Print Assumptions C05_table_domain.
 Print Assumptions C05_near_instance.
 Print Assumptions C05_conformal_partial.
 Print Assumptions C05_conformal_refuted.
+Print Assumptions C05_source_is_model.
